@@ -494,9 +494,18 @@ var wedgeUnit *vstat.Unit
 func watchdog(sc *scenario) (stop func()) {
 	done := make(chan struct{})
 	go func() {
-		select {
-		case <-done:
-		case <-time.After(30 * time.Second):
+		// A deadlock leaves NO goroutine of the bubble runnable. On an overloaded machine goroutines can be
+		// runnable and still not get anywhere for a long time: that is starvation, the environment's fault.
+		// The verdict therefore needs a snapshot in which every goroutine of the bubble is blocked and at
+		// least one of them waits for a lock; snapshots with runnable goroutines only postpone it.
+		wait := 30 * time.Second
+		for attempt := 0; ; attempt++ {
+			select {
+			case <-done:
+				return
+			case <-time.After(wait):
+			}
+			wait = 15 * time.Second
 			buf := make([]byte, 1<<28)
 			buf = buf[:runtime.Stack(buf, true)]
 			var rel []string
@@ -533,18 +542,25 @@ func watchdog(sc *scenario) (stop func()) {
 			if len(st) > 9000 {
 				st = st[:9000]
 			}
-			// A lock-held deadlock shows as a goroutine of the bubble waiting for a sync.Mutex (that is
-			// what keeps the bubble from being idle). If every goroutine of the bubble is durably
-			// blocked and the fake clock still does not advance, the fault is not the broker's: that is
-			// reported as an infrastructure problem (exit 3), never as a violation.
-			lockWait := false
+			lockWait, busy := false, false
 			for _, g := range rel {
+				head := strings.SplitN(g, "\n", 2)[0]
+				if strings.Contains(head, "[runnable") || strings.Contains(head, "[running") || strings.Contains(head, "[syscall") {
+					busy = true
+				}
 				if strings.Contains(g, "sync.Mutex.Lock") || strings.Contains(g, "sync.(*Mutex).Lock") || strings.Contains(g, "semacquire") || strings.Contains(g, "sync.RWMutex") {
 					lockWait = true
 				}
 			}
-			if !lockWait {
-				fmt.Printf("HARNESS-WEDGE: the fake clock stopped advancing although no goroutine of the bubble waits for a lock (runtime/harness issue, not a verdict). Goroutines:\n%s\n", st)
+			if busy && attempt < 6 {
+				continue // starved, not stuck: look again later
+			}
+			if busy || !lockWait {
+				why := "the fake clock stopped advancing although no goroutine of the bubble waits for a lock"
+				if busy {
+					why = "goroutines of the bubble were runnable in every snapshot but the scenario did not finish within two minutes (machine overloaded)"
+				}
+				fmt.Printf("HARNESS-WEDGE: %s (runtime/harness/environment issue, not a verdict). Goroutines:\n%s\n", why, st)
 				if wedgeUnit != nil {
 					wedgeUnit.Add("inconclusive", 1)
 					wedgeUnit.Flush()
@@ -552,7 +568,7 @@ func watchdog(sc *scenario) (stop func()) {
 				os.Exit(3)
 			}
 			if wedgeUnit != nil {
-				fmt.Println(wedgeUnit.Fail(sc, "scenario made no progress for 30 s of real time on the fake clock: a request is blocked while holding (or waiting for) the broker's lock, so no request can complete any more. Goroutines:\n%s", st))
+				fmt.Println(wedgeUnit.Fail(sc, "scenario made no progress for %d s of real time on the fake clock, every goroutine of the scenario is blocked and at least one waits for a lock: a request is blocked while holding (or waiting for) the broker's lock, so no request can complete any more. Goroutines:\n%s", 30+15*attempt, st))
 				wedgeUnit.Flush()
 			}
 			os.Exit(1)
